@@ -37,7 +37,9 @@ void SimulateF100L::reset()
   memset(&cr, 0, sizeof(cr));
 
   accum = 0;
-  pc = org;
+
+  // org is a word address, pc counts bytes.
+  pc = org * 2;
 }
 
 void SimulateF100L::push(uint32_t value)
